@@ -26,11 +26,11 @@ Definition route_spec : list rroute := [
   ("GET", [L ""; L "allocations"], RAllocations);
   ("GET", [L ""; L "allocations"; TVar "hash"], RAllocation);
   ("GET", [L ""; L "pins"], RStatusAll);
+  ("POST", [L ""; L "pins"; TAlt "keyType" ["ipfs"; "ipns"; "ipld"]; TRest "path"], RPinPath);   (* before Recover since fix-S26: /pins/ipns/recover is a path *)
   ("POST", [L ""; L "pins"; TVar "hash"; L "recover"], RRecover);
   ("POST", [L ""; L "pins"; L "recover"], RRecoverAll);
   ("GET", [L ""; L "pins"; TVar "hash"], RStatus);
   ("POST", [L ""; L "pins"; TVar "hash"], RPin);
-  ("POST", [L ""; L "pins"; TAlt "keyType" ["ipfs"; "ipns"; "ipld"]; TRest "path"], RPinPath);
   ("DELETE", [L ""; L "pins"; TVar "hash"], RUnpin);
   ("DELETE", [L ""; L "pins"; TAlt "keyType" ["ipfs"; "ipns"; "ipld"]; TRest "path"], RUnpinPath);
   ("POST", [L ""; L "ipfs"; L "gc"], RRepoGC);
@@ -178,19 +178,6 @@ Definition model_eqb_client (c : ccall) (e : cenv) (o : cobs) : bool :=
   && (if cr_refused r then true else Z.eqb (cr_err r) (co_err o))
   && match cr_ret r with Some s => String.eqb s (co_ret o) | None => true end.
 
-(* ---- known findings: recognisers of the failing SHAPE (never of the property) ---- *)
-(* tag 1: PinPath of "/<ipfs|ipns|ipld>/recover": the request POST /pins/<kt>/recover belongs to the Recover route,
-   which routes() lists before PinPath (hash = <kt> does not decode: 400, nothing arrives) *)
-Definition is_recover_shadow (c : ccall) : bool :=
-  String.eqb (cc_name c) "PinPath" &&
-  match cc_path c with
-  | Some p => match segments (trim_slash p) with
-              | [e; kt; r] => String.eqb e "" && str_in kt ["ipfs"; "ipns"; "ipld"] && String.eqb r "recover"
-              | _ => false end
-  | None => false
-  end.
-Definition client_tag (c : ccall) : N := if is_recover_shadow c then 1%N else 0%N.
-
 Inductive ccase := CHttp (rq : rreq) (e : renv) (cmp : bool) (o : robs) | CClient (c : ccall) (e : cenv) (o : cobs).
 Definition case := (N * ccase)%type.
 
@@ -200,7 +187,7 @@ Definition check_case (c : case) : list (N * N * N) :=
   | CHttp rq e cmp o =>
       (if cmp && negb (model_eqb_http rq e o) then [(id, 1%N, 0%N)] else []) ++ map (fun code => (id, code, 0%N)) (spec_codes_http rq e o)
   | CClient cl e o =>
-      (if model_eqb_client cl e o then [] else [(id, 1%N, 0%N)]) ++ map (fun code => (id, code, client_tag cl)) (spec_codes_client cl e o)
+      (if model_eqb_client cl e o then [] else [(id, 1%N, 0%N)]) ++ map (fun code => (id, code, 0%N)) (spec_codes_client cl e o)
   end.
 
 Definition failing (cs : list case) : list (N * N * N) := flat_map check_case cs.
